@@ -152,8 +152,15 @@ def build() -> Check:
             n_sync_put += 1
             if not isinstance(ev, Obj):
                 bad.append(("synchronous call enqueues no completion event", t))
-            elif not any(w.data.get("oid") == ev.oid and not w.data.get("bounded") and t.events.index(w) > t.events.index(puts[-1]) for w in waits):
-                bad.append(("synchronous call does not wait (unbounded) on the event it enqueued", t))
+            elif t.outcome == "return":
+                # a normal return must rest on the caller's own event having been set: an unbounded wait on it, a bounded wait that
+                # was released, or a read that saw it set (a polling loop) - never a timeout or somebody else's flag
+                after_put = t.events[t.events.index(puts[-1]) + 1:]
+                released = any(w.kind == "EV_WAIT" and w.data.get("oid") == ev.oid and w.data.get("outcome") == "released" for w in after_put)
+                seen = any(w.kind == "EV_ISSET" and w.data.get("oid") == ev.oid and w.data.get("result") for w in after_put)
+                if not (released or seen):
+                    bad.append(("synchronous call returns normally although nothing established that the event it enqueued was set "
+                                "(no released wait on it, no read that saw it set)", t))
         else:
             if not (isinstance(ev, Const) and ev.value is None):
                 bad.append(("asynchronous call enqueues a completion event", t))
